@@ -42,6 +42,36 @@ struct Info {
     owner_pol: Pol,
     init: String,
     cfg: Option<String>,
+    /// initialiser expression: (value tag, expression, program instance)
+    expr: Option<(u32, IExpr, String)>,
+}
+
+fn parse_num(s: &str) -> Option<i128> {
+    s.strip_prefix('n')?.split_once(':')?.1.parse().ok()
+}
+
+/// "Declared initial value" of a variable as the property reads it.  For an initialiser
+/// expression: the expression over the globals as they are once the restart is complete (`post`;
+/// `None` = the declared initial values, which is what a build sees) and over the initial values of
+/// the earlier variables of the same program.
+fn fresh_of(infos: &[Info], i: &Info, post: Option<&Dump>) -> String {
+    let Some((tag, e, inst)) = &i.expr else { return i.fresh().to_string() };
+    let g = |n: &str| -> Option<i128> {
+        match post {
+            Some(d) => parse_num(d.var(n)?),
+            None => infos.iter().find(|x| x.path == n).and_then(|x| parse_num(&x.init)),
+        }
+    };
+    let l = |n: &str| -> Option<i128> {
+        let p = format!("{inst}.{n}");
+        let u = infos.iter().find(|x| x.path == p)?;
+        if u.expr.is_some() {
+            parse_num(&fresh_of(infos, u, post))
+        } else {
+            parse_num(&u.init)
+        }
+    };
+    e.eval(&g, &l).map(|v| format!("n{tag}:{v}")).unwrap_or_else(|| "?".into())
 }
 
 impl Info {
@@ -63,7 +93,7 @@ impl Info {
 
 fn infos(case: &Case) -> Vec<Info> {
     let mut out = Vec::new();
-    let add_var = |path: String, v: &Var, pol: Pol, global: bool, out: &mut Vec<Info>| match &v.ty {
+    let add_var = |path: String, v: &Var, pol: Pol, global: bool, inst: &str, out: &mut Vec<Info>| match &v.ty {
         Ty::Fb(i) => {
             for m in &case.fbs[*i].members {
                 out.push(Info {
@@ -73,6 +103,7 @@ fn infos(case: &Case) -> Vec<Info> {
                     owner_pol: pol,
                     init: m.init_val().show(),
                     cfg: None,
+                    expr: None,
                 });
             }
         }
@@ -83,14 +114,18 @@ fn infos(case: &Case) -> Vec<Info> {
             owner_pol: pol,
             init: v.init_val().show(),
             cfg: None,
+            expr: match (&v.init_expr, &v.ty) {
+                (Some(e), Ty::S(sty)) => Some((STYS[*sty].tag, e.clone(), inst.to_string())),
+                _ => None,
+            },
         }),
     };
     for g in &case.globals {
-        add_var(g.name.clone(), g, g.pol, true, &mut out);
+        add_var(g.name.clone(), g, g.pol, true, "", &mut out);
     }
     for p in &case.progs {
         for v in &p.vars {
-            add_var(format!("{}.{}", p.inst, v.name), v, p.effective_pol(v), false, &mut out);
+            add_var(format!("{}.{}", p.inst, v.name), v, p.effective_pol(v), false, &p.inst, &mut out);
         }
     }
     for c in &case.cfg_inits {
@@ -246,7 +281,8 @@ impl<'a> Runner<'a> {
                 self.fail("warm-rule", format!("{} missing", i.path));
                 continue;
             };
-            let expected = if i.retains() { before } else { i.fresh() };
+            let fresh = fresh_of(&self.infos, &i, Some(post));
+            let expected = if i.retains() { before } else { fresh.as_str() };
             if after == expected {
                 continue;
             }
@@ -307,13 +343,14 @@ impl<'a> Runner<'a> {
                 self.fail("cold-vars", format!("{} missing", i.path));
                 continue;
             };
-            if after == i.fresh() {
+            let fresh = fresh_of(&self.infos, &i, Some(post));
+            if after == fresh {
                 continue;
             }
             if i.cfg.is_some() && after == i.init {
-                self.known("config-init-lost", format!("{}: {} after cold restart, VAR_CONFIG value {}", i.path, after, i.fresh()));
+                self.known("config-init-lost", format!("{}: {} after cold restart, VAR_CONFIG value {}", i.path, after, fresh));
             } else {
-                self.fail("cold-vars", format!("{}: after={} expected={}", i.path, after, i.fresh()));
+                self.fail("cold-vars", format!("{}: after={} expected={}", i.path, after, fresh));
             }
         }
     }
@@ -334,13 +371,17 @@ impl<'a> Runner<'a> {
     }
 
     /// Power-cycle clause: the set of preserved variables is the warm-restart set.
-    fn check_power(&mut self, post: &Dump, restarted: bool) {
+    fn check_power(&mut self, post: &Dump, restarted: bool, at_restart: Option<&Dump>) {
         for i in self.infos.clone() {
             let Some(after) = post.var(&i.path) else { continue };
             let saved = self.saved.as_ref().and_then(|s| s.get(&i.path)).cloned();
+            // initialiser expressions are evaluated when the instance is created: by the build
+            // (globals at their declared values) or by the start-up restart (globals as that restart
+            // leaves them), in both cases before the load
+            let fresh = fresh_of(&self.infos, &i, at_restart);
             let expected = match (i.retains(), saved) {
                 (true, Some(s)) => s,
-                _ => i.fresh().to_string(),
+                _ => fresh.clone(),
             };
             if after == expected {
                 continue;
@@ -354,7 +395,9 @@ impl<'a> Runner<'a> {
                     }
                 }
                 Kind::Prog => {
-                    if i.retains() && after == i.fresh() {
+                    // the saved value is lost and the variable shows an initial value: the one the
+                    // start-up restart computed, or the build's, kept by a warm start-up restart
+                    if i.retains() && (after == fresh || after == fresh_of(&self.infos, &i, None)) {
                         self.known("power-program-retain", format!("{}: after={} saved={}", i.path, after, expected));
                     } else if restarted && i.cfg.is_some() && after == i.init {
                         self.known("config-init-lost", format!("{}: {} after start-up restart", i.path, after));
@@ -548,20 +591,42 @@ impl<'a> Runner<'a> {
                     self.start_twin(with_load)?;
                 }
             }
+            Step::Sched(script) => {
+                self.twin = None;
+                let d = self.op(0, Op::Sched(script.clone()))?;
+                self.out.count("sched_tails");
+                // every request is carried out unless a later one replaced it before the thread
+                // took it (only possible before the thread starts): requests are never lost
+                let pre = script.iter().filter(|(w, _)| *w == When::Pre).count();
+                let expected = script.len() - pre + usize::from(pre > 0);
+                if let Some((pending, loads)) = &d.sched {
+                    if d.res != "ok" || pending != "-" || *loads != expected {
+                        self.fail(
+                            "sched-request-lost",
+                            format!("res={} pending={pending} restarts carried out={loads} requested (not superseded)={expected}", d.res),
+                        );
+                    }
+                }
+                if script.iter().any(|(w, _)| *w == When::During) {
+                    self.out.count("sched_request_during_restart");
+                }
+            }
             Step::Power(restart) => {
                 self.twin = None;
                 self.op(0, Op::Build)?;
                 self.attach_driver(0)?;
                 let auto = self.store.unwrap_or(false);
                 self.op(0, Op::Store(auto))?;
+                let mut at_restart = None;
                 if let Some(m) = restart {
                     let before = self.last[0].clone().unwrap();
                     let d = self.op(0, Op::Restart(*m))?;
                     self.check_resets(&before, &d, *m);
+                    at_restart = Some(d);
                 }
                 let post = self.op(0, Op::Load)?;
                 self.out.count("power_cycles");
-                self.check_power(&post, restart.is_some());
+                self.check_power(&post, restart.is_some(), at_restart.as_ref());
             }
         }
         Ok(())
@@ -614,9 +679,10 @@ fn run_case(n: u64, case: &Case, profile: &str, out: &mut Out, tmp: &std::path::
     }
     // the build itself: every variable has its declared (or VAR_CONFIG) initial value
     for i in r.infos.clone() {
+        let fresh = fresh_of(&r.infos, &i, None);
         match d0.var(&i.path) {
-            Some(v) if v == i.fresh() => {}
-            other => r.fail("build-init", format!("{}: built={:?} declared={}", i.path, other, i.fresh())),
+            Some(v) if v == fresh => {}
+            other => r.fail("build-init", format!("{}: built={:?} declared={}", i.path, other, fresh)),
         }
     }
     if d0.dead != 0 {
@@ -627,7 +693,7 @@ fn run_case(n: u64, case: &Case, profile: &str, out: &mut Out, tmp: &std::path::
     for step in &case.history {
         match step {
             Step::Cycle(_) => cycles_before_restart = true,
-            Step::Restart(_) | Step::Rwr(_) | Step::Power(_) if cycles_before_restart => nontrivial = true,
+            Step::Restart(_) | Step::Rwr(_) | Step::Power(_) | Step::Sched(_) if cycles_before_restart => nontrivial = true,
             _ => {}
         }
         r.step(step)?;
